@@ -431,6 +431,8 @@ func (w *srvWorld) genConn(i int, dialled, late bool) *peerConn {
 }
 
 // genMalformed builds an undecodable item followed by trailing valid-looking data.
+var malformedKinds = []string{"avp-len-lt-8", "avp-len-gt-container", "vflag-short", "unknown-command", "decl-len-short", "garbage", "avp-len-zero-nested", "stray-tail-small", "stray-tail-large"}
+
 func (w *srvWorld) forcedMalformed() int {
 	if w.cfg.force != nil {
 		return w.cfg.force.malformed
@@ -445,11 +447,11 @@ func genMalformedKind(t *Tape, conn, k int, forced int) (string, []byte) {
 	good := RefMsg{Cmd: 900, Flags: 0x80, HbH: 9, E2E: 9, AVPs: []RefAVP{{Code: avpSimOctets, Data: mk}}}
 	trail := RefMsg{Cmd: 901, Flags: 0x80, HbH: 10, E2E: 10, AVPs: []RefAVP{{Code: avpSimOctets, Data: marker(conn, 1000+k, 40, 1)}}}.Bytes()
 	var b []byte
-	ki := t.Draw(7)
+	ki := t.Draw(len(malformedKinds))
 	if forced >= 0 {
-		ki = forced % 7
+		ki = forced % len(malformedKinds)
 	}
-	kind := []string{"avp-len-lt-8", "avp-len-gt-container", "vflag-short", "unknown-command", "decl-len-short", "garbage", "avp-len-zero-nested"}[ki]
+	kind := malformedKinds[ki]
 	switch kind {
 	case "avp-len-lt-8":
 		m := good
@@ -489,6 +491,17 @@ func genMalformedKind(t *Tape, conn, k int, forced int) (string, []byte) {
 		if len(b) >= 28 {
 			put24(b[25:28], 3) // first AVP declares length 3
 		}
+	case "stray-tail-small", "stray-tail-large":
+		// valid AVPs followed by 1-7 bytes that cannot be an AVP; the declared message length covers them
+		n := 24
+		if kind == "stray-tail-large" {
+			n = 1010 + t.Draw(400)
+		}
+		m := good
+		m.AVPs = []RefAVP{{Code: avpSimOctets, Data: marker(conn, k, n, 0x33)}}
+		b = m.Bytes()
+		b = append(b, t.Bytes(1+t.Draw(7))...)
+		put24(b[1:4], len(b))
 	default:
 		inner := RefAVP{Code: avpSimOctets, Data: []byte("x"), DeclLen: t.Draw(8), DeclSet: true}
 		m := good
